@@ -19,6 +19,11 @@ use crate::api::EMPTY_CSTR;
 /// the 56th bit used to set the inode to 1 indicates virtual inode
 const VIRTUAL_INODE_FLAG: u64 = 1 << 55;
 
+/// Whether `inode` is in the virtual format, i.e. does not carry the host inode number.
+pub fn is_virtual_inode(inode: u64) -> bool {
+    inode & VIRTUAL_INODE_FLAG != 0
+}
+
 /// Used to form a pair of dev and mntid as the key of the map
 #[derive(Clone, Copy, Default, PartialOrd, Ord, PartialEq, Eq, Debug)]
 struct DevMntIDPair(libc::dev_t, u64);
@@ -46,6 +51,17 @@ impl UniqueInodeGenerator {
     }
 
     pub fn get_unique_inode(&self, id: &InodeId) -> io::Result<libc::ino64_t> {
+        self.do_get_unique_inode(id, false)
+    }
+
+    /// Get a unique inode in the virtual format even if the host inode number would fit. Used when
+    /// the number in host format is still in use for another (deleted, but referenced) file
+    /// whose inode number the host file system has recycled.
+    pub fn get_unique_virtual_inode(&self, id: &InodeId) -> io::Result<libc::ino64_t> {
+        self.do_get_unique_inode(id, true)
+    }
+
+    fn do_get_unique_inode(&self, id: &InodeId, force_virtual: bool) -> io::Result<libc::ino64_t> {
         let unique_id = {
             let id: DevMntIDPair = DevMntIDPair(id.dev, id.mnt);
             let mut id_map_guard = self.dev_mntid_map.lock().unwrap();
@@ -64,7 +80,7 @@ impl UniqueInodeGenerator {
             }
         };
 
-        let inode = if id.ino <= MAX_HOST_INO {
+        let inode = if id.ino <= MAX_HOST_INO && !force_virtual {
             id.ino
         } else {
             if self.next_virtual_inode.load(Ordering::Relaxed) > MAX_HOST_INO {
